@@ -41,7 +41,7 @@ QUERIES2 = {
               "--list-dependencies", "--dsl-target", "--interface=generic"],
 }
 SEARCH = ["--search-path=" + os.path.join(core.REPO, "mfront/tests", d) for d in ("properties", "behaviours", "models")]
-QUICK_KINDS = ["word_early", "rawstr_noparen", "laststr_selfref", "drop_semi", "drop_close", "drop_open", "drop_rbr", "drop_rpa", "open_str", "str_backslash", "str_to_num", "trunc_kw", "bare_at", "empty_arg",
+QUICK_KINDS = ["word_early", "rawstr_noparen", "laststr_selfref", "other_iface_eof", "drop_semi", "drop_close", "drop_open", "drop_rbr", "drop_rpa", "open_str", "str_backslash", "str_to_num", "trunc_kw", "bare_at", "empty_arg",
                "num_to_str", "num_huge", "num_neg", "lastnum_expr", "word_to_num", "word_kwlike", "lastword_array_neg", "lastword_array_huge",
                "lastword_array_open", "bad_opt", "open_opt", "open_iface", "open_comment", "nul", "rawstr_open", "lone_dquote", "deep_brace",
                "dup", "del", "eof_after_kw", "eof_mid", "eof_before_end"]
